@@ -12,7 +12,7 @@
     * `newOctree` (every element list, every depth) builds a `Covers` tree whose elements are a
       permutation of the input.
 -/
-import PolyVerif.Lemmas.TreeBuild
+import PolyVerif.Lemmas.Bvh
 
 namespace PolyVerif
 namespace C16
@@ -323,6 +323,61 @@ theorem octree_queries_eq_scan_of_input (ps : List (Prim ℝ)) (depth : Nat)
   obtain ⟨hc, hp⟩ := h
   rw [containing_eq_scan t hc, withinRange_eq_scan t hc, rayElements_eq_scan t hc]
   exact ⟨(hp.filter _).map _, (hp.filter _).map _, (hp.filter _).map _⟩
+
+
+/-! ### BVH: `BVHNode.Hit` = `HitList.Hit` -/
+
+variable {H : Type}
+
+/-- For EVERY BVH whose node boxes cover the boxes of the primitives below them (`BInv` — in particular for
+    every outcome of the random axis choice and of the unstable sort), `BVHNode.Hit` returns the same hit flag
+    and the same distance as `HitList.Hit` run over the tree's primitives in leaf order, for every range.
+    Geometry is abstract: all that is used of a primitive is that when its `Hit` succeeds within a range, the
+    slab test accepts its box for that range; all that is used of the box test is monotonicity (`slab_mono`). -/
+theorem bvh_hit_eq_list (sub : B → B → Prop) (boxH : H → B) (slab : B → K → K → Bool)
+    (primHit : H → K → K → Option K)
+    (hmono : ∀ a b mn mx, sub a b → slab a mn mx = true → slab b mn mx = true)
+    (hprim : ∀ h mn mx d, primHit h mn mx = some d → slab (boxH h) mn mx = true)
+    (t : Bvh B H) (ht : BInv sub boxH t) (mn mx : K) :
+    t.hit slab primHit mn mx = listHit primHit t.leaves mn mx :=
+  bvh_hit_eq_list_aux sub boxH slab primHit hmono hprim t ht mn mx
+
+/-- the same with the real box test of `geometry.AABB` for a ray `(o, d)` -/
+theorem bvh_hit_eq_list_aabb (boxH : H → Box) (o d : P3) (primHit : H → ℝ → ℝ → Option ℝ)
+    (hprim : ∀ h mn mx dist, primHit h mn mx = some dist → intersectsRayInRange (boxH h) o d mn mx = true)
+    (t : Bvh Box H) (ht : BInv BoxSub boxH t) (mn mx : ℝ) :
+    t.hit (fun b lo hi => intersectsRayInRange b o d lo hi) primHit mn mx = listHit primHit t.leaves mn mx :=
+  bvh_hit_eq_list BoxSub boxH _ primHit (fun _ _ mn mx hs ha => Tree.slab_mono hs o d mn mx ha) hprim t ht mn mx
+
+/-- `HitList.Hit` answers the NEAREST of the individual hits (and misses only if every primitive misses),
+    for primitives that report their first hit `f h` beyond `mn` exactly when it is within the range. -/
+theorem hitlist_nearest [LinearOrder K] (f : H → Option K) (primHit : H → K → K → Option K) (mn : K)
+    (hc : ∀ h mx, primHit h mn mx = (f h).bind (fun d => if d ≤ mx then some d else none))
+    (hs : List H) (mx : K) :
+    (listHit primHit hs mn mx = none → ∀ h ∈ hs, primHit h mn mx = none) ∧
+    (∀ d, listHit primHit hs mn mx = some d →
+      (∃ h ∈ hs, primHit h mn mx = some d) ∧ ∀ h ∈ hs, ∀ d', primHit h mn mx = some d' → d ≤ d') :=
+  listHit_spec f primHit mn hc hs mx
+
+/-- BVH against an exhaustive `HitList` in ANY order (and with any multiplicities — a one-object span stores
+    the object as both children): same flag, same nearest distance. -/
+theorem bvh_hit_eq_hitlist_any_order [LinearOrder K] (sub : B → B → Prop) (boxH : H → B)
+    (slab : B → K → K → Bool) (f : H → K → Option K) (primHit : H → K → K → Option K)
+    (hmono : ∀ a b mn mx, sub a b → slab a mn mx = true → slab b mn mx = true)
+    (hprim : ∀ h mn mx d, primHit h mn mx = some d → slab (boxH h) mn mx = true)
+    (hc : ∀ h mn mx, primHit h mn mx = (f h mn).bind (fun d => if d ≤ mx then some d else none))
+    (t : Bvh B H) (ht : BInv sub boxH t) (objs : List H) (hobjs : ∀ h, h ∈ objs ↔ h ∈ t.leaves) (mn mx : K) :
+    t.hit slab primHit mn mx = listHit primHit objs mn mx := by
+  rw [bvh_hit_eq_list sub boxH slab primHit hmono hprim t ht mn mx]
+  exact (listHit_congr_mem (fun h => f h mn) primHit mn (fun h mx => hc h mn mx) objs t.leaves hobjs mx).symm
+
+/-- a covering BVH over two "primitives" on the integers (box = interval, slab = overlap with the range) -/
+example : BInv (fun (a b : Int × Int) => b.1 ≤ a.1 ∧ a.2 ≤ b.2) (fun (h : Int × Int) => h)
+    (Bvh.node (0, 9) (.leaf (0, 3)) (.leaf (5, 9))) := by
+  refine BInv.node ?_ (BInv.leaf _) (BInv.leaf _)
+  intro h hh
+  simp [Bvh.leaves] at hh
+  rcases hh with rfl | rfl <;> decide
 
 /-- a tree satisfying `Covers` in which pruning actually matters (two leaves under one root) -/
 noncomputable def exTree : Oct Box (Elem ℝ) :=
